@@ -20,11 +20,24 @@ from insights.client.constants import InsightsConstants as constants
 
 __all__ = ("load_playbook_yaml", "verify", "PlaybookVerificationError")
 
-yaml = yaml.YAML(typ='rt')
-yaml.indent(mapping=2, sequence=4, offset=2)
-yaml.default_flow_style = False
-yaml.preserve_quotes = True
-yaml.width = 200
+_ruamel_yaml = yaml
+
+
+def _new_yaml():
+    """A YAML loader of its own for every document.
+
+    A loader object keeps the version of the last '%YAML' directive it has read
+    and applies it to the documents it reads afterwards.
+    """
+    result = _ruamel_yaml.YAML(typ='rt')
+    result.indent(mapping=2, sequence=4, offset=2)
+    result.default_flow_style = False
+    result.preserve_quotes = True
+    result.width = 200
+    return result
+
+
+yaml = _new_yaml()
 
 PLAYBOOK_SIGNATURE_LABEL = 'insights_signature'
 PLAYBOOK_DYNAMIC_LABELS = ['hosts', 'vars']
@@ -60,7 +73,7 @@ def load_playbook_yaml(playbook):
         raise PlaybookVerificationError("Cannot load a playbook from an empty input.")
 
     try:
-        plays = yaml.load(playbook)
+        plays = _new_yaml().load(playbook)
         _expand_merge_keys(plays)
         return plays
     except Exception:
@@ -313,7 +326,7 @@ def get_play_revocation_list(revoked_plays_yaml):
         # >     - name: ...
         # >       hash: ...
         # There will never be more than one top-level object, we can safely do [0].
-        revoked_plays = yaml.load(revoked_plays_yaml)[0]  # type: dict
+        revoked_plays = _new_yaml().load(revoked_plays_yaml)[0]  # type: dict
     except Exception:
         raise PlaybookVerificationError("Could not load play revocation list.")
 
